@@ -385,49 +385,76 @@ func execConcurrent(run *simkit.Run) {
 	}
 	neps := c.Int("endpoints")
 	var wg sync.WaitGroup
-	type opRec struct {
-		worker    int
-		call, ret time.Duration
-	}
 	var slowest time.Duration
 	var smu sync.Mutex
-	seq := 0
-	tick := func() int { seq++; return seq } // global event sequence number (call under smu)
+	// Every registry/selector call is recorded (invoke and return stamped with
+	// the history's event sequence number) and checked afterwards for
+	// linearizability against the sequential registry model, per node and
+	// endpoint. Upstreams are shared by the workers of a node, and a removal
+	// is sometimes repeated by another worker (go-away seen by the proxy and
+	// the connection closing: the same upstream removed twice, concurrently).
+	hist := simkit.NewHistory()
+	pools := map[int][]*fakeUpstream{} // per node: upstreams that may (still or again) be removed
+	var all []*fakeUpstream
 	for wi := 0; wi < c.Int("workers"); wi++ {
 		wg.Add(1)
 		nd := w.nodes[wi%len(w.nodes)]
 		go func(wi int, rng *simkit.Rand) {
 			defer wg.Done()
-			var mine []*fakeUpstream
 			for k := 0; k < c.Int("ops"); k++ {
 				t0 := time.Now()
-				switch r := rng.Intn(10); {
+				switch r := rng.Intn(12); {
 				case r < 4:
 					smu.Lock()
 					w.nup++
 					u := &fakeUpstream{endpoint: endpointNames[rng.Intn(neps)], id: w.nup, node: nd.idx}
-					u.addCall = tick()
+					all = append(all, u)
 					smu.Unlock()
+					part := fmt.Sprintf("n%d/%s", nd.idx, u.endpoint)
+					call := hist.Stamp()
+					u.addCall = int(call)
 					nd.mgr.AddConn(u)
-					mine = append(mine, u)
-				case r < 7 && len(mine) > 0:
-					j := rng.Intn(len(mine))
-					u := mine[j]
-					mine = append(mine[:j:j], mine[j+1:]...)
-					nd.mgr.RemoveConn(u)
+					hist.Done(part, wi, call, regIn{Kind: "add", U: u.id}, regOut{})
 					smu.Lock()
-					u.removeRet = tick()
+					pools[nd.idx] = append(pools[nd.idx], u)
+					smu.Unlock()
+				case r < 7:
+					smu.Lock()
+					pl := pools[nd.idx]
+					if len(pl) == 0 {
+						smu.Unlock()
+						continue
+					}
+					j := rng.Intn(len(pl))
+					u := pl[j]
+					if rng.Intn(3) != 0 {
+						pools[nd.idx] = append(pl[:j:j], pl[j+1:]...)
+					} else if u.removed {
+						run.Probe("c05.duplicate_removal")
+					}
+					u.removed = true
+					smu.Unlock()
+					part := fmt.Sprintf("n%d/%s", nd.idx, u.endpoint)
+					call := hist.Stamp()
+					nd.mgr.RemoveConn(u)
+					hist.Done(part, wi, call, regIn{Kind: "remove", U: u.id}, regOut{})
+					smu.Lock()
+					if u.removeRet == 0 {
+						u.removeRet = int(hist.Stamp())
+					}
 					smu.Unlock()
 				case r < 9:
 					ep := endpointNames[rng.Intn(neps)]
-					smu.Lock()
-					call := tick()
-					smu.Unlock()
-					u, ok := nd.mgr.Select(ep, rng.Bool())
+					allowRemote := rng.Bool()
+					part := fmt.Sprintf("n%d/%s", nd.idx, ep)
+					call := hist.Stamp()
+					u, ok := nd.mgr.Select(ep, allowRemote)
+					out := regOut{None: !ok}
 					if ok && u == nil {
 						run.Fail("C15.valid", "nil-upstream", "n%d concurrent Select(%q) reported success without an upstream", nd.idx, ep)
 					} else if ok {
 						if fu, isLocal := u.(*fakeUpstream); isLocal {
+							out.Local = fu.id
 							smu.Lock()
 							rr := fu.removeRet
 							smu.Unlock()
@@ -436,11 +463,30 @@ func execConcurrent(run *simkit.Run) {
 								run.Fail("C15.valid", "upstream-of-other-endpoint", "n%d concurrent Select(%q) returned an upstream of %q", nd.idx, ep, fu.endpoint)
 							case fu.node != nd.idx:
 								run.Fail("C15.valid", "upstream-of-other-node", "n%d concurrent Select(%q) returned an upstream registered on n%d", nd.idx, ep, fu.node)
-							case rr != 0 && rr < call:
+							case rr != 0 && int64(rr) < call:
 								run.Fail("C15.valid", "removed-upstream-returned", "n%d concurrent Select(%q) returned upstream #%d whose removal had completed before the selection began", nd.idx, ep, fu.id)
 							}
 							run.Probe("c15.concurrent_select_checked")
+						} else {
+							out.Remote = true
+							if !allowRemote {
+								run.Fail("C15.noforward", "remote-despite-no-forward", "n%d concurrent Select(%q, allowRemote=false) returned a remote node", nd.idx, ep)
+							}
 						}
+					}
+					hist.Done(part, wi, call, regIn{Kind: "select"}, out)
+				case r < 11:
+					// status reads: what the node publishes, what the registry lists
+					ep := endpointNames[rng.Intn(neps)]
+					part := fmt.Sprintf("n%d/%s", nd.idx, ep)
+					if rng.Bool() {
+						call := hist.Stamp()
+						n := nd.state.LocalNode().Endpoints[ep]
+						hist.Done(part, wi, call, regIn{Kind: "advertised"}, regOut{Count: n})
+					} else {
+						call := hist.Stamp()
+						n := nd.mgr.Endpoints()[ep]
+						hist.Done(part, wi, call, regIn{Kind: "registered"}, regOut{Count: n})
 					}
 				default:
 					_ = nd.state.Nodes()
@@ -462,12 +508,6 @@ func execConcurrent(run *simkit.Run) {
 					time.Sleep(time.Duration(1+rng.Intn(3)) * time.Millisecond)
 				}
 			}
-			// what this worker leaves registered is the ground truth
-			smu.Lock()
-			for _, u := range mine {
-				nd.reg[u.endpoint] = append(nd.reg[u.endpoint], u)
-			}
-			smu.Unlock()
 		}(wi, run.Aux.Fork())
 	}
 	// membership churn while the workers run: nodes that join late are first
@@ -486,6 +526,29 @@ func execConcurrent(run *simkit.Run) {
 		}(run.Aux.Fork())
 	}
 	wg.Wait()
+	// what was added and never removed is the ground truth at rest
+	for _, u := range all {
+		if !u.removed {
+			w.nodes[u.node].reg[u.endpoint] = append(w.nodes[u.node].reg[u.endpoint], u)
+		}
+	}
+	// C05: registrations, (repeated) removals and reads of the advertised count
+	// are linearizable: some order of the concurrent calls explains every count.
+	if res := hist.Check(registryModel, func(in any) bool { k := in.(regIn).Kind; return k != "select" && k != "registered" }, 48); res.BadPart != "" {
+		run.LogBad(res)
+		run.Fail("C05.linear", "advertised-count-not-linearizable", "no sequential order of the concurrent AddConn/RemoveConn calls on %s explains the advertised counts that were read (%d operations, see log)", res.BadPart, len(res.BadOps))
+	} else {
+		run.ProbeN("c05.linearizable_partitions", res.Checked)
+		run.ProbeN("lin.skipped_partitions", res.Skipped)
+	}
+	// C15: selections are linearizable against the same registry: each returns
+	// an upstream registered at its linearization point and respects round robin.
+	if res := hist.Check(registryModel, func(in any) bool { return in.(regIn).Kind != "advertised" }, 48); res.BadPart != "" {
+		run.LogBad(res)
+		run.Fail("C15.linear", "selection-not-linearizable", "no sequential order of the concurrent AddConn/RemoveConn/Select calls on %s explains the selections (%d operations, see log)", res.BadPart, len(res.BadOps))
+	} else {
+		run.ProbeN("c15.linearizable_partitions", res.Checked)
+	}
 	if slowest > time.Second {
 		run.Fail("C20.bounded", "operation-blocked", "a registry/selection/status operation took %v of virtual time", slowest)
 	}
